@@ -16,6 +16,7 @@ class get_cardinal_direction:
         "C06.west": "implies(coords[1][1] == coords[0][1] - 1, result == 'WEST')",
         "C06.east": "implies(coords[1][1] == coords[0][1] + 1, result == 'EAST')",
     }
+    result = T.Str
     props = ["C06"]
 
 
@@ -39,6 +40,7 @@ class get_relative_direction:
         "C06.right": f"implies({_STEP1} == 1 and {_STEP2} == 1 and {_RIGHT}, result == 'RIGHT')",
     }
     raises = {"ValueError": f"{_STEP1} > 1 or {_STEP2} > 1 or ({_STEP1} == 0 and {_STEP2} != 0)"}
+    result = T.Str
     props = ["C06"]
 
 
